@@ -21,7 +21,7 @@ def gen_spec(rng, size=None, features=None):
     feats = features if features is not None else {
         'hdrs', 'steps', 'multi', 'gensrc', 'copy', 'alias', 'cmd', 'test',
         'extra', 'default', 'install', 'always', 'subdirs', 'shared', 'implicit', 'pch', 'prelib',
-        'versioned', 'cmds', 'filelists'}
+        'versioned', 'cmds', 'filelists', 'duallib'}
     n = size or rng.randint(4, 22)
     files = {}
     nodes = []
@@ -76,7 +76,7 @@ def gen_spec(rng, size=None, features=None):
         return next(nd for nd in nodes if nd['id'] == ref[1])
 
     kinds = ['obj', 'obj', 'exe', 'exe', 'slib', 'dlib', 'step', 'step', 'copy', 'alias',
-             'cmd', 'test', 'pch', 'objs', 'copies']
+             'cmd', 'test', 'pch', 'objs', 'copies', 'lib']
     plain_objs_used = [False]
     for _ in range(n):
         kind = rng.choice(kinds)
@@ -124,7 +124,8 @@ def gen_spec(rng, size=None, features=None):
                 if 'pch' in feats and len(use_srcs) == 1 and rng.random() < 0.35:
                     pch_str = 'pre%d.h' % i
                     files[pch_str] = '#define PRE%d\n' % i
-            libs = [nd2['id'] for nd2 in nodes if nd2['kind'] in ('slib', 'dlib')]
+            libs = [nd2['id'] for nd2 in nodes if nd2['kind'] in ('slib', 'dlib') or
+                    (nd2['kind'] == 'lib' and kind != 'slib')]
             nd = {'id': i, 'kind': kind,
                   'name': '%s%s%d' % (sub, {'exe': 'e', 'slib': 'l', 'dlib': 'l'}[kind], i),
                   'objs': use_objs, 'srcs': use_srcs, 'members': members,
@@ -159,6 +160,14 @@ def gen_spec(rng, size=None, features=None):
                   'extra': pick_extra(),
                   'always': 'always' in feats and rng.random() < 0.12,
                   'env': rng.choice([None, None, 'v%d' % i, 'two words %d' % i, "q'%d$x" % i])}
+        elif kind == 'lib':
+            # library(): shared, static or both, as the configuration says (set_mode)
+            if 'duallib' not in feats or 'shared' not in feats:
+                continue
+            nd = {'id': i, 'kind': 'lib', 'name': 'u%d' % i, 'objs': [], 'members': [],
+                  'srcs': rng.sample(srcs, rng.randint(1, min(2, len(srcs)))),
+                  'hdrs': rng.sample(hdrs, rng.randint(0, min(1, len(hdrs)))),
+                  'libs': [], 'extra': [], 'pch_str': None, 'prelibs': [], 'mode': [True, False]}
         elif kind == 'objs':
             # object_files([...]): one compile step per source, named after the source
             if 'filelists' not in feats or len(srcs) < 2:
@@ -241,6 +250,7 @@ def gen_spec(rng, size=None, features=None):
     if 'default' in feats and buildable and rng.random() < 0.3:
         spec['default'] = rng.sample(buildable, rng.randint(1, min(3, len(buildable))))
     inst = [nd['id'] for nd in nodes if nd['kind'] in ('exe', 'slib', 'dlib')]
+    buildable += [nd['id'] for nd in nodes if nd['kind'] == 'lib']
     if 'install' in feats and inst and rng.random() < 0.2:
         spec['install'] = rng.sample(inst, rng.randint(1, min(2, len(inst))))
     tdeps = [nd['id'] for nd in nodes if nd['kind'] in ('step', 'copy')]
@@ -260,6 +270,9 @@ def out_names(nd):
     if k in ('slib', 'dlib'):
         d, b = os.path.split(nd['name'])
         return [os.path.join(d, 'lib' + b + ('.a' if k == 'slib' else '.so'))]
+    if k == 'lib':
+        # the file its users link: the shared object when there is one
+        return ['lib' + nd['name'] + ('.so' if nd['mode'][0] else '.a')]
     if k == 'step':
         return list(nd['outs'])
     if k == 'copy':
@@ -272,6 +285,28 @@ def out_names(nd):
     if k == 'copies':
         return [nd['dir'] + '/' + s for s in nd['srcs']]
     return []
+
+
+def set_mode(spec, shared=True, static=False):
+    """How the project is configured (--enable/--disable-shared/static): decides what a
+    library() node is."""
+    for nd in spec['nodes']:
+        if nd['kind'] == 'lib':
+            nd['mode'] = [bool(shared), bool(static)]
+
+
+def mode_of_args(args):
+    shared, static = True, False
+    for a in args:
+        if a == '--enable-static':
+            static = True
+        elif a == '--disable-static':
+            static = False
+        elif a == '--enable-shared':
+            shared = True
+        elif a == '--disable-shared':
+            shared = False
+    return shared, static
 
 
 def versioned_names(nd):
@@ -311,8 +346,9 @@ def render(spec, stub='vrec'):
             incs = ', includes=[%s]' % ', '.join(inc) if inc else ''
             L.append('%s = precompiled_header(%r, file=%s%s)' % (v, nd['name'],
                                                                 _ref(['file', nd['hdr']]), incs))
-        elif k in ('exe', 'slib', 'dlib'):
-            fn = {'exe': 'executable', 'slib': 'static_library', 'dlib': 'shared_library'}[k]
+        elif k in ('exe', 'slib', 'dlib', 'lib'):
+            fn = {'exe': 'executable', 'slib': 'static_library', 'dlib': 'shared_library',
+                  'lib': 'library'}[k]
             files = ['n%d' % o for o in nd['objs']] + [repr(s) for s in nd['srcs']]
             listed = [m for m in nd.get('members', []) if m[0] == 'list']
             files += ['n%d[%d]' % (m[1], m[2]) for m in nd.get('members', []) if m[0] == 'node']
@@ -375,7 +411,7 @@ def render(spec, stub='vrec'):
                 L.append('test([%r, %r%s])' % (stub, '--id=%d' % i, ''.join(
                     ', ' + _ref(r) for r in nd['refs'])))
         if k in ('obj', 'exe', 'slib', 'dlib', 'copy', 'step', 'alias', 'cmd', 'pch', 'objs',
-                 'copies'):
+                 'copies', 'lib'):
             # uniform access to outputs
             multi = (k == 'step' and len(nd['outs']) > 1) or k in ('objs', 'copies')
             L.append('%s_out = %s' % (v, 'list(%s)' % v if multi else '[%s]' % v))
@@ -457,7 +493,7 @@ class Model:
                 sid = 'copies%d/%d' % (i, j)
                 self._step(sid, i, 'copy', ['S:' + src], ['B:' + o])
                 self.node_multi[i].append(sid)
-        elif k in ('exe', 'slib', 'dlib'):
+        elif k in ('exe', 'slib', 'dlib', 'lib'):
             objs = ['B:' + out_names(self.byid[o])[0] for o in nd['objs']]
             for mm in nd.get('members', []):
                 names = out_names(self.byid[mm[1]])
@@ -477,6 +513,18 @@ class Model:
                 objs.append(o)
             libs = ['B:' + out_names(self.byid[l])[0] for l in nd['libs']] + \
                 ['S:' + p for p in nd.get('prelibs', [])]
+            if k == 'lib':
+                # one set of objects; a link step, an archive step, or both
+                self.node_multi[i] = []
+                if nd['mode'][0]:
+                    self._step('lib%d/shared' % i, i, 'link', objs + libs + extra,
+                               ['B:lib' + nd['name'] + '.so'])
+                    self.node_multi[i].append('lib%d/shared' % i)
+                if nd['mode'][1]:
+                    self._step('lib%d/static' % i, i, 'ar', objs + libs + extra,
+                               ['B:lib' + nd['name'] + '.a'])
+                    self.node_multi[i].append('lib%d/static' % i)
+                return
             if nd.get('version'):
                 real, soname = versioned_names(nd)
                 self._step('dlib%d' % i, i, 'link', objs + libs + extra, ['B:' + real])
@@ -552,7 +600,8 @@ class Model:
         if explicit:
             return explicit
         return [nd['id'] for nd in self.spec['nodes']
-                if nd['kind'] in ('exe', 'slib', 'dlib') and nd['id'] not in self.given_to_test]
+                if nd['kind'] in ('exe', 'slib', 'dlib', 'lib') and
+                nd['id'] not in self.given_to_test]
 
     def default_steps(self):
         return self.node_target_steps(self.default_nodes())
